@@ -4,7 +4,7 @@ package memstorage
 
 // Contracts for IndexedStorage (property C12: a keyed store of per-index storages), read by the verification machinery in
 // /verif. Comment-only file. The cache is a ShrinkingMap of the pinned ds dependency (assumed contracts:
-// /verif/contracts/trusted/ds.spec); C abbreviates e.cache.m. Contracts are instantiated for int indexes, keys and values.
+// /verif/contracts/trusted/ds.spec); C abbreviates e.cache.m. Contracts are instantiated for uint32 indexes, int keys and values.
 
 /*@
 type IndexedStorage
@@ -12,7 +12,7 @@ type IndexedStorage
 
 -- Evict: the storage of the index (nil if there is none) leaves the cache; the other indexes keep theirs
 func IndexedStorage.Evict
-  instantiate IndexType: int
+  instantiate IndexType: uint32
   instantiate K: int
   instantiate V: int
   opt sequential
@@ -26,7 +26,7 @@ func IndexedStorage.Evict
 
 -- Get: the storage of the index; a missing one is created (and kept) only on request
 func IndexedStorage.Get
-  instantiate IndexType: int
+  instantiate IndexType: uint32
   instantiate K: int
   instantiate V: int
   opt sequential
@@ -40,7 +40,7 @@ func IndexedStorage.Get
 
 -- ForEach hands every pair to the consumer as it is
 func IndexedStorage.ForEach$1
-  instantiate IndexType: int
+  instantiate IndexType: uint32
   instantiate K: int
   instantiate V: int
   requires f != nil && *f != nil
@@ -52,7 +52,7 @@ func IndexedStorage.ForEach$1
 -- Clear: keys and storages are collected pairwise (clearedStorages[i] is the storage of clearedKeys[i]) and the cache
 -- starts again empty
 func IndexedStorage.Clear$1
-  instantiate IndexType: int
+  instantiate IndexType: uint32
   instantiate K: int
   instantiate V: int
   requires clearedKeys != nil && clearedStorages != nil && clearedKeys != clearedStorages
@@ -64,7 +64,7 @@ func IndexedStorage.Clear$1
   ensures forall i Int :: 0 <= i && i < old(len(*clearedKeys)) ==> (*clearedKeys)[i] == old((*clearedKeys)[i]) && (*clearedStorages)[i] == old((*clearedStorages)[i])
 
 func IndexedStorage.Clear
-  instantiate IndexType: int
+  instantiate IndexType: uint32
   instantiate K: int
   instantiate V: int
   opt sequential
